@@ -28,6 +28,7 @@ class Monitor(object):
     def at_quiescence(self, w): pass
     def state(self): return None
     def flag(self, w, kind, detail, arn=None, site=None, **extra):
+        extra.setdefault("in", getattr(w, "cur_kind", None))
         self.violations.append(Violation(self.name, kind, detail, arn, site, w.step_no, extra))
 
 def _site_fn(site):
@@ -234,3 +235,445 @@ class MEscape(Monitor):
             step, lab, err = w.escaped[self.seen]
             self.seen += 1
             self.flag(w, "escaped_exception", "%s during %s" % (err, lab), None, None, error=err.split(":")[0])
+
+# ------------------------------------------------------------------------------------------------------
+def _defn_successors(defn):
+    """state name -> set of possible next names, at the top level of a definition."""
+    out = {}
+    for name, st in defn.get("States", {}).items():
+        s = set()
+        if isinstance(st, dict):
+            if "Next" in st:
+                s.add(st["Next"])
+            if "Default" in st:
+                s.add(st["Default"])
+            for c in st.get("Choices", []) or []:
+                if isinstance(c, dict) and "Next" in c:
+                    s.add(c["Next"])
+            for c in st.get("Catch", []) or []:
+                if isinstance(c, dict) and "Next" in c:
+                    s.add(c["Next"])
+        out[name] = s
+    return out
+
+class MHist(Monitor):
+    """C09: the history of every STANDARD execution is a gap-free, ordered, faithful log (checked after every step)."""
+    name = "M-hist"
+    def __init__(self):
+        super().__init__()
+        self.checked = {}     # arn -> number of events already verified
+        self.term = {}        # arn -> index of the terminal event
+        self.open = {}        # arn -> {state name: entered - exited}
+        self.last_ts = {}
+        self.top = {}         # arn -> [last entered top-level state, last exited top-level output text]
+        self.flagged = set()
+        self.failure_seen = {}
+
+    def _flag(self, w, arn, kind, detail, **extra):
+        if (arn, kind) in self.flagged:
+            return
+        self.flagged.add((arn, kind))
+        self.flag(w, kind, detail, arn, None, **extra)
+
+    def after_step(self, w, label):
+        engs = w.engines()
+        if not engs:
+            return
+        e = engs[0]
+        for arn in list(e.execution_history.keys()):
+            h = e.execution_history[arn]
+            n = len(h)
+            done = self.checked.get(arn, 0)
+            if n < done:
+                self._flag(w, arn, "history_shrank", "history went from %d to %d events" % (done, n))
+                continue
+            if n == done:
+                continue
+            rec = e.executions.get(arn)
+            sm = None
+            for sname, sarn in w.machines.items():
+                if rec is not None and rec.get("stateMachineArn") == sarn:
+                    sm = w.sc["machines"][sname]
+            mtype = (sm or {}).get("type", "STANDARD")
+            if mtype == "EXPRESS":
+                self._flag(w, arn, "express_has_history", "an EXPRESS execution has %d history events" % n)
+            succ = _defn_successors(sm["definition"]) if sm else {}
+            top_names = set(succ)
+            opn = self.open.setdefault(arn, {})
+            for i in range(done, n):
+                ev = h[i]
+                t = ev.get("type")
+                if ev.get("id") != i + 1 or ev.get("previousEventId") != i:
+                    self._flag(w, arn, "bad_numbering", "event at position %d has id=%r previousEventId=%r" % (i + 1, ev.get("id"), ev.get("previousEventId")))
+                ts = ev.get("timestamp")
+                if arn in self.last_ts and ts < self.last_ts[arn]:
+                    self._flag(w, arn, "timestamp_decreases", "event %d timestamp %r < %r" % (i + 1, ts, self.last_ts[arn]))
+                self.last_ts[arn] = ts
+                if arn in self.term:
+                    self._flag(w, arn, "event_after_terminal", "%s appended after %s" % (t, h[self.term[arn]]["type"]), what=t)
+                if i == 0:
+                    if t != "ExecutionStarted":
+                        self._flag(w, arn, "first_event", "first event is %s" % t)
+                    elif rec is not None and rec.get("input") is not None and ev.get("executionStartedEventDetails", {}).get("input") != rec.get("input"):
+                        self._flag(w, arn, "started_input", "ExecutionStarted input %r != record input %r" % (
+                            ev.get("executionStartedEventDetails", {}).get("input"), rec.get("input")))
+                elif t == "ExecutionStarted":
+                    self._flag(w, arn, "second_started", "ExecutionStarted at position %d" % (i + 1))
+                if t in ("ExecutionSucceeded", "ExecutionFailed"):
+                    self.term[arn] = i
+                if t and ("Failed" in t or "TimedOut" in t or "Aborted" in t):
+                    self.failure_seen[arn] = True
+                if t and t.endswith("StateEntered"):
+                    d = ev.get("stateEnteredEventDetails", {})
+                    nm = d.get("name")
+                    opn[nm] = opn.get(nm, 0) + 1
+                    if nm in top_names and not self._in_fanout(sm, nm):
+                        prev = self.top.get(arn)
+                        if prev is not None:
+                            pname, pout, pexited = prev
+                            if nm not in succ.get(pname, set()) and not (nm == pname):
+                                self._flag(w, arn, "bad_transition", "%s entered after %s (allowed: %s)" % (nm, pname, sorted(succ.get(pname, []))))
+                            if not pexited and not self.failure_seen.get(arn):
+                                self._flag(w, arn, "entered_before_exit", "%s entered before %s exited" % (nm, pname))
+                            if pexited and pout is not None and d.get("input") != pout:
+                                self._flag(w, arn, "input_output_mismatch", "%s entered with %r but %s exited with %r" % (nm, d.get("input"), pname, pout))
+                        else:
+                            st0 = sm["definition"].get("StartAt") if sm else None
+                            if st0 is not None and nm != st0:
+                                self._flag(w, arn, "bad_transition", "first state entered is %s, StartAt is %s" % (nm, st0))
+                        self.top[arn] = [nm, None, False]
+                if t and t.endswith("StateExited"):
+                    d = ev.get("stateExitedEventDetails", {})
+                    nm = d.get("name")
+                    opn[nm] = opn.get(nm, 0) - 1
+                    if opn[nm] < 0:
+                        self._flag(w, arn, "exit_without_entry", "%s for %s without a matching StateEntered" % (t, nm))
+                    prev = self.top.get(arn)
+                    if prev is not None and prev[0] == nm:
+                        prev[1] = d.get("output"); prev[2] = True
+            self.checked[arn] = n
+            # terminal agreement with the record
+            if arn in self.term and rec is not None:
+                ev = h[self.term[arn]]
+                if ev["type"] == "ExecutionSucceeded":
+                    if rec.get("status") != "SUCCEEDED" or ev.get("executionSucceededEventDetails", {}).get("output") != rec.get("output"):
+                        self._flag(w, arn, "terminal_disagrees", "ExecutionSucceeded %r vs record %r/%r" % (
+                            ev.get("executionSucceededEventDetails"), rec.get("status"), rec.get("output")))
+                    if not self.failure_seen.get(arn):
+                        bad = {k: v for k, v in opn.items() if v != 0}
+                        if bad:
+                            self._flag(w, arn, "entered_never_exited", "execution SUCCEEDED without failures but entered-exited counts are %r" % bad)
+                else:
+                    d = ev.get("executionFailedEventDetails", {})
+                    if rec.get("status") != "FAILED" or d.get("error") != rec.get("error") or d.get("cause") != rec.get("cause"):
+                        self._flag(w, arn, "terminal_disagrees", "ExecutionFailed %r vs record %r/%r/%r" % (d, rec.get("status"), rec.get("error"), rec.get("cause")))
+        # record says terminal but history has no terminal event
+        for arn, rec in e.executions.items():
+            if rec.get("status") in TERMINAL and arn in e.execution_history and arn not in self.term:
+                self._flag(w, arn, "terminal_missing", "record is %s but the history has no terminal event" % rec.get("status"))
+
+    @staticmethod
+    def _in_fanout(sm, nm):
+        return False
+
+    def state(self):
+        return [sorted((a, n) for a, n in self.checked.items()), sorted(self.term.items()),
+                sorted((a, sorted(o.items())) for a, o in self.open.items()), sorted((a, v) for a, v in self.top.items()),
+                sorted(self.failure_seen)]
+
+# ------------------------------------------------------------------------------------------------------
+class MViews(Monitor):
+    """C11: record, last notification and last history event tell the same story; notification shape; record keeps seconds."""
+    name = "M-views"
+    def __init__(self):
+        super().__init__()
+        self.last = {}
+        self.count = {}
+        self.flagged = set()
+
+    def _flag(self, w, arn, kind, detail, **extra):
+        if (arn, kind) in self.flagged:
+            return
+        self.flagged.add((arn, kind))
+        self.flag(w, kind, detail, arn, None, **extra)
+
+    def on_note(self, w, note):
+        b = note["body"] or {}
+        d = b.get("detail") or {}
+        arn = d.get("executionArn")
+        st = d.get("status")
+        self.last[arn] = d
+        k = (arn, st)
+        self.count[k] = self.count.get(k, 0) + 1
+        if self.count[k] > 1:
+            self._flag(w, arn, "status_published_twice", "%s published %d times" % (st, self.count[k]), what=st)
+        want_key = "%s.%s" % (d.get("stateMachineArn"), st)
+        if note["key"] != want_key:
+            self._flag(w, arn, "wrong_subject", "published to %r, expected %r" % (note["key"], want_key))
+        shape = []
+        if b.get("version") != "0": shape.append("version")
+        if b.get("detail-type") != "Step Functions Execution Status Change": shape.append("detail-type")
+        if b.get("source") != "aws.states": shape.append("source")
+        if b.get("resources") != [arn]: shape.append("resources")
+        parts = (arn or "").split(":")
+        if len(parts) > 4 and (b.get("account") != parts[4] or b.get("region") != parts[3]): shape.append("account/region")
+        if not isinstance(b.get("id"), str) or not isinstance(b.get("time"), str): shape.append("id/time")
+        for f in ("startDate", "stopDate"):
+            v = d.get(f)
+            if v is not None and (not isinstance(v, int) or isinstance(v, bool)):
+                shape.append(f + " not integer ms")
+        if d.get("startDate") is None: shape.append("startDate missing")
+        if (d.get("stopDate") is None) != (st == "RUNNING"): shape.append("stopDate presence")
+        for f in ("executionArn", "stateMachineArn", "name", "status", "input"):
+            if f not in d: shape.append(f + " missing")
+        if shape:
+            self._flag(w, arn, "notification_shape", "notification for %s: %s" % (st, ", ".join(shape)), what=",".join(shape))
+
+    def after_step(self, w, label):
+        recs = w.executions()
+        engs = w.engines()
+        for arn, rec in recs.items():
+            d = self.last.get(arn)
+            if d is None:
+                continue
+            for f in ("status", "input", "output"):
+                if rec.get(f) != d.get(f):
+                    self._flag(w, arn, "record_vs_notification", "%s: record %r, last notification %r" % (f, rec.get(f), d.get(f)), what=f)
+            if rec.get("status") == "FAILED" and (rec.get("error") != d.get("error") or rec.get("cause") != d.get("cause")):
+                self._flag(w, arn, "record_vs_notification", "error/cause: record %r/%r, notification %r/%r" % (rec.get("error"), rec.get("cause"), d.get("error"), d.get("cause")), what="error")
+            for f in ("executionArn", "stateMachineArn", "name"):
+                if rec.get(f) != d.get(f):
+                    self._flag(w, arn, "record_vs_notification", "%s: record %r, notification %r" % (f, rec.get(f), d.get(f)), what=f)
+            # the stored record must still hold epoch seconds once the broadcast is over
+            for f in ("startDate", "stopDate"):
+                rv, nv = rec.get(f), d.get(f)
+                if rv is None and nv is None:
+                    continue
+                if rv is None or nv is None or isinstance(rv, bool) or abs(rv * 1000 - nv) >= 1.0:
+                    self._flag(w, arn, "record_timestamp_altered", "record %s=%r while the notification carries %r ms" % (f, rv, nv), what=f)
+        # every live instance sharing the store answers alike
+        if len(engs) > 1 and w.store_kind == "redis":
+            base = {k: dict(v) for k, v in engs[0].executions.items()}
+            for e in engs[1:]:
+                other = {k: dict(v) for k, v in e.executions.items()}
+                if other != base:
+                    self._flag(w, None, "instances_disagree", "executions seen through two instances differ")
+
+    def state(self):
+        return [sorted((str(a), d.get("status")) for a, d in self.last.items()), sorted(self.flagged)]
+
+# ------------------------------------------------------------------------------------------------------
+class MFail(Monitor):
+    """C06: once a Parallel/Map attempt has failed (terminal notification, retry republish, or <Type>StateFailed in the
+    history) nothing carrying one of that attempt's branch ids publishes an event or issues an RPC request;
+    no RPC request is issued for an execution that is already terminal."""
+    name = "M-fail"
+    def __init__(self):
+        super().__init__()
+        self.branch_ids = {}    # arn -> {branch id: parent state name}
+        self.dead = {}          # arn -> set of dead branch ids
+        self.msg = {}           # message id -> (arn, [branch ids])
+        self.terminal = set()
+        self.flagged = set()
+        self.hist_len = {}
+
+    def on_note(self, w, note):
+        d = (note["body"] or {}).get("detail") or {}
+        if d.get("status") in TERMINAL:
+            self.terminal.add(d.get("executionArn"))
+            arn = d.get("executionArn")
+            self.dead.setdefault(arn, set()).update(self.branch_ids.get(arn, {}))
+
+    def on_op(self, w, op):
+        if op["op"] != "publish" or w.step_no == 0:
+            return
+        rk = op.get("routing_key")
+        if op.get("arn"):
+            try:
+                ctx = json.loads(op["body"].decode("utf8"))["context"]
+            except Exception:
+                return
+            arn = op["arn"]
+            st = ctx.get("State") or {}
+            ids = [b.get("ID") for b in (st.get("Branch") or []) if isinstance(b, dict) and b.get("ID")]
+            self.msg[op.get("message_id")] = (arn, ids)
+            dead = self.dead.setdefault(arn, set())
+            for b in (st.get("Branch") or []):
+                if isinstance(b, dict) and b.get("ID") and "Parent" in b:
+                    self.branch_ids.setdefault(arn, {})[b["ID"]] = b["Parent"]
+            hit = [i for i in ids if i in dead]
+            if hit and (arn, "pub", st.get("Name")) not in self.flagged:
+                self.flagged.add((arn, "pub", st.get("Name")))
+                self.flag(w, "sibling_progress", "event for state %r published by a branch of an already failed Parallel/Map attempt" % st.get("Name"),
+                          arn, op.get("site"), state=st.get("Name"))
+            # a retry republish of the fan-out state kills the ids of the previous attempt
+            if st.get("RetryCount") and not hit:
+                name = st.get("Name")
+                for bid, parent in self.branch_ids.get(arn, {}).items():
+                    if parent == name and bid not in ids:
+                        dead.add(bid)
+        elif rk in w.workers:
+            cid = (op.get("correlation_id") or "").split(".")[0]
+            ent = self.msg.get(cid)
+            if ent:
+                arn, ids = ent
+                if arn in self.terminal and (arn, "rpc") not in self.flagged:
+                    self.flagged.add((arn, "rpc"))
+                    self.flag(w, "rpc_after_terminal", "RPC request to %s issued after the execution's terminal notification" % rk, arn, op.get("site"), queue=rk)
+                elif any(i in self.dead.get(arn, ()) for i in ids) and (arn, "rpc2", rk) not in self.flagged:
+                    self.flagged.add((arn, "rpc2", rk))
+                    self.flag(w, "sibling_rpc", "RPC request to %s issued by a branch of an already failed Parallel/Map attempt" % rk, arn, op.get("site"), queue=rk)
+
+    def after_step(self, w, label):
+        # <Type>StateFailed in the history marks every branch id created so far for that execution as dead
+        for e in w.engines():
+            for arn, h in e.execution_history.items():
+                n0 = self.hist_len.get(arn, 0)
+                n = len(h)
+                if n > n0:
+                    for ev in list(h)[n0:n]:
+                        if ev.get("type") in ("ParallelStateFailed", "MapStateFailed"):
+                            self.dead.setdefault(arn, set()).update(self.branch_ids.get(arn, {}))
+                    self.hist_len[arn] = n
+            break
+
+    def state(self):
+        return [sorted((a, sorted(s)) for a, s in self.dead.items()), sorted(self.terminal), sorted(map(str, self.flagged))]
+
+# ------------------------------------------------------------------------------------------------------
+def _loose_eq(g, w):
+    if isinstance(g, dict) and isinstance(w, dict):
+        if set(g) != set(w):
+            return False
+        for k in g:
+            if k == "Cause" and isinstance(g[k], str) and isinstance(w[k], str):
+                if not g[k].endswith(w[k]):
+                    return False
+            elif not _loose_eq(g[k], w[k]):
+                return False
+        return True
+    if isinstance(g, list) and isinstance(w, list):
+        return len(g) == len(w) and all(_loose_eq(a, b) for a, b in zip(g, w))
+    return json.dumps(g) == json.dumps(w)
+
+class MRef(Monitor):
+    """Differential oracle: the terminal status / output / error of every execution equals what the reference
+    interpreter computed for the scenario (scenario['expect'][arn]), on every schedule."""
+    name = "M-ref"
+    def __init__(self, scenario):
+        super().__init__()
+        self.expect = scenario.get("expect") or {}
+        self.seen = set()
+    def on_note(self, w, note):
+        d = (note["body"] or {}).get("detail") or {}
+        arn, st = d.get("executionArn"), d.get("status")
+        if st not in TERMINAL or arn not in self.expect or arn in self.seen:
+            return
+        self.seen.add(arn)
+        ex = self.expect[arn]
+        if ex.get("status") is None:
+            return
+        ok = st == ex["status"]
+        if ok and st == "SUCCEEDED":
+            try:
+                ok = _loose_eq(json.loads(d.get("output")), ex.get("output"))
+            except Exception:
+                ok = False
+        elif ok:
+            errs = ex.get("errors") or [ex.get("error")]
+            ok = d.get("error") in errs
+        if not ok:
+            self.flag(w, "wrong_result", "terminal %s output=%r error=%r; reference %s output=%r error=%r" % (
+                st, d.get("output"), d.get("error"), ex.get("status"), ex.get("output"), ex.get("errors") or ex.get("error")), arn,
+                None, first=ex.get("status"), second=st)
+    def state(self):
+        return sorted(self.seen)
+
+class MJoin(Monitor):
+    """C05: join completeness / position / exactly-once iterations / MaxConcurrency bound."""
+    name = "M-join"
+    def __init__(self, scenario):
+        super().__init__()
+        self.maxc = scenario.get("maxc") or {}        # worker queue -> bound on requests in flight
+        self.outstanding = {}
+        self.cid_q = {}
+        self.flagged = set()
+        self.once = scenario.get("requests_once", False)
+
+    def on_op(self, w, op):
+        if w.step_no == 0:
+            return
+        if op["op"] == "publish" and op.get("routing_key") in self.maxc and op.get("exchange") == "":
+            q = op["routing_key"]
+            self.cid_q[op.get("correlation_id")] = q
+            self.outstanding[q] = self.outstanding.get(q, 0) + 1
+            if self.outstanding[q] > self.maxc[q] and q not in self.flagged:
+                self.flagged.add(q)
+                self.flag(w, "max_concurrency_exceeded", "%d requests in flight on %s, MaxConcurrency %d" % (self.outstanding[q], q, self.maxc[q]),
+                          op.get("arn"), op.get("site"), queue=q)
+        elif op["op"] == "deliver" and op.get("correlation_id") in self.cid_q and op.get("queue", "").startswith("asl_workflow_reply_to"):
+            q = self.cid_q.pop(op["correlation_id"])
+            self.outstanding[q] -= 1
+
+    def at_quiescence(self, w):
+        for e in w.engines():
+            for arn, h in e.execution_history.items():
+                h = list(h)
+                rec = e.executions.get(arn)
+                sm = None
+                for sname, sarn in w.machines.items():
+                    if rec is not None and rec.get("stateMachineArn") == sarn:
+                        sm = w.sc["machines"][sname]["definition"]
+                if sm is None:
+                    continue
+                started = {}
+                for i, ev in enumerate(h):
+                    if ev.get("type") == "MapIterationStarted":
+                        d = ev.get("mapIterationStartedEventDetails", {})
+                        started.setdefault(d.get("name"), []).append(d.get("index"))
+                    if ev.get("type") == "MapStateStarted":
+                        pass
+                if self.once:
+                    lengths = {}
+                    for ev in h:
+                        if ev.get("type") == "MapStateStarted":
+                            pass
+                    for name, idxs in started.items():
+                        if sorted(idxs) != list(range(len(idxs))):
+                            self.flag(w, "iteration_not_once", "Map %s started iterations %r" % (name, idxs), arn, None, state=name)
+                # the state after a top-level fan-out is entered only after every event of its branches
+                for name, st in sm.get("States", {}).items():
+                    if not isinstance(st, dict) or st.get("Type") not in ("Parallel", "Map"):
+                        continue
+                    inner = set()
+                    def collect(x):
+                        if isinstance(x, dict):
+                            for k, v in x.items():
+                                if k == "States" and isinstance(v, dict):
+                                    inner.update(v.keys())
+                                collect(v)
+                        elif isinstance(x, list):
+                            for v in x:
+                                collect(v)
+                    collect({k: v for k, v in st.items()})
+                    ex_idx = [i for i, ev in enumerate(h) if ev.get("type") == st["Type"] + "StateExited" and ev.get("stateExitedEventDetails", {}).get("name") == name]
+                    if not ex_idx:
+                        continue
+                    j = ex_idx[0]
+                    nxt = [i for i, ev in enumerate(h) if i > j and ev.get("type", "").endswith("StateEntered")]
+                    late = [ev.get("type") for i, ev in enumerate(h) if i > j and (
+                        (ev.get("stateEnteredEventDetails") or ev.get("stateExitedEventDetails") or {}).get("name") in inner)]
+                    if late and len(ex_idx) == 1:
+                        self.flag(w, "branch_event_after_join", "%s of a branch of %s logged after %sStateExited" % (late[0], name, st["Type"]), arn, None, state=name)
+            break
+        if self.once:
+            for fname, wk in w.workers.items():
+                seen = {}
+                for (step, cid, text, t) in wk.requests:
+                    seen[text] = seen.get(text, 0) + 1
+                dup = {k: v for k, v in seen.items() if v > 1}
+                if dup:
+                    self.flag(w, "request_repeated", "worker %s received %r more than once" % (fname, dup), None, None, queue=fname)
+
+    def state(self):
+        return [sorted(self.outstanding.items()), sorted(self.flagged)]
